@@ -155,7 +155,7 @@ uint16_t Avtp_Vss_CalcVssPathLength(Avtp_Vss_t* pdu) {
     return path_length;
 }
 
-uint8_t Avtp_Vss_GetVSSDataStringArrayLength(VssDataStringArray_t* str_array) {
+uint16_t Avtp_Vss_GetVSSDataStringArrayLength(VssDataStringArray_t* str_array) {
 
     uint16_t total_length = str_array->data_length;
     uint8_t * vss_data_string_array_raw = str_array->data;
@@ -186,6 +186,7 @@ void Avtp_Vss_DeserializeStringArray(VssDataStringArray_t* vss_data_string_array
             memcpy(strings[i]->data, array_data+2, strings[i]->data_length);
         }
         array_data += 2 + strings[i]->data_length;
+        idx += 2 + strings[i]->data_length;
     }
 }
 
